@@ -47,6 +47,7 @@ type scenario struct {
 var schedBodies = []string{
 	"Ps.Apply(docS)",
 	"Ps.ApplyWithOptions(docS, SHARED opts limit=12)",
+	"ProotS.ApplyWithOptions(docS, noescape) [root replaced]",
 	"Ps.ApplyIndent(docS)",
 	"DecodePatch(patchS)+Apply(docS)",
 	"MergePatch(docS,mpS)",
@@ -82,6 +83,15 @@ func buildScenarios(w *apiWorld, tier string) []scenario {
 				out = append(out, scenario{fmt.Sprintf("%s | %s [%s]", schedBodies[i], schedBodies[j], tag), []int{idx[i], idx[j]}, warm})
 			}
 		}
+	}
+	// root replacement under different EscapeHTML settings, side by side
+	for _, warm := range []bool{false, true} {
+		tag := "cold"
+		if warm {
+			tag = "warm"
+		}
+		out = append(out, scenario{"ProotS.ApplyWithOptions(noescape) | ProotS.Apply(default) [" + tag + "]",
+			[]int{callIndex(w, "ProotS.ApplyWithOptions(docS, noescape) [root replaced]"), callIndex(w, "ProotS.Apply(docS) [root replaced]")}, warm})
 	}
 	three := [][]int{{0, 0, 0}, {0, 3, 4}, {2, 5, 6}}
 	for _, t := range three {
@@ -518,6 +528,8 @@ func raceBodies(reps int) {
 	}
 	scs = append(scs, scenario{"8 x P.Apply(docObj) [cold]", []int{all[0], all[0], all[0], all[0], all[0], all[0], all[0], all[0]}, false},
 		scenario{"all bodies at once [cold]", all, false},
+		scenario{"ProotS noescape | ProotS default | ProotS noescape", []int{callIndex(w, "ProotS.ApplyWithOptions(docS, noescape) [root replaced]"), callIndex(w, "ProotS.Apply(docS) [root replaced]"), callIndex(w, "ProotS.ApplyWithOptions(docS, noescape) [root replaced]")}, false},
+		scenario{"CreateMergePatch big ok | big malformed | big ok", []int{callIndex(w, "CreateMergePatch(bigA,bigB) [5 KB documents]"), callIndex(w, "CreateMergePatch(bigBad,bigB) [5 KB, first malformed]"), callIndex(w, "CreateMergePatch(bigA,bigB) [5 KB documents]")}, false},
 		scenario{"legacy Apply | legacy Apply | legacy MergePatch", []int{callIndex(w, "legacy Lp.Apply(docObj)"), callIndex(w, "legacy Lp.Apply(docObj)"), callIndex(w, "legacy MergePatch(docObj,mp1)")}, false})
 	mism := 0
 	runs := 0
